@@ -14,6 +14,7 @@ in the implementation."""
 import glob
 import json
 import os
+import re
 from concurrent.futures import ThreadPoolExecutor
 
 import common
@@ -188,11 +189,9 @@ def load_corpus():
 
 def gen(ctx):
     rng = ctx.rng
-    hs = [('corpus:' + n, h) for n, h in load_corpus()]
+    # C08_SKIP_CORPUS=1: sanity runs that must find a re-introduced defect with generated histories alone
+    hs = [] if os.environ.get('C08_SKIP_CORPUS') else [('corpus:' + n, h) for n, h in load_corpus()]
     pairs = hu.pair_histories()
-    n_pairs = 160 if ctx.tier == 'quick' else len(pairs)
-    if n_pairs < len(pairs):
-        pairs = rng.sample(pairs, n_pairs)
     hs += [('pair', h) for h in pairs]
     extra = []
     try:
@@ -216,7 +215,7 @@ def run(ctx):
     model = ctx.model('history') if ok else None
     ctx.cov['rule'] = (
         'histories = committed corpus (one minimal history per repaired defect), all ordered (call, probe) pairs over a '
-        'compact pool with everything shareable shared (sampled in the quick tier), random histories of 1..12 calls plus a '
+        'compact pool with everything shareable shared random histories of 1..12 calls plus a '
         'probe over 1..7 configurations: markup and stylesheet, succeeding and failing (malformed abbreviation, malformed '
         'user snippet, snippets that do not convert), the same dict object / an equal copy / a shared Config object / no '
         'config, cache dicts shared between differing units, snippets, syntaxes and contexts, BEM, wrap text (str, list, '
@@ -256,6 +255,7 @@ def run(ctx):
             corr['disagreements'] += 1
             disagree[k] = diffs
     n_fail = 0
+    unexplained = []
     for k, ((label, h), r) in enumerate(zip(hs, rs)):
         fails = hu.oracle(h, r)
         ctx.count_eval(len(h['calls']) + 1)
@@ -273,7 +273,7 @@ def run(ctx):
                 ctx.broken.append({'kind': 'harness-crash', 'file': what[:300]})
                 continue
             small = h
-            if n_fail <= 6 and len(h['calls']) > 1 and ctx.match_known(key) is None:
+            if n_fail <= 3 and len(h['calls']) > 1 and ctx.match_known(key) is None:
                 try:
                     small = hu.shrink(pool, h, key)
                 except Exception:
@@ -282,10 +282,32 @@ def run(ctx):
                                              'why': what, 'source': label,
                                              'support_only': key in KEYS_SUPPORT})
         if k in disagree and not fails:
-            ctx.broken.append({'kind': 'model-correspondence', 'file': 'history %d (%s): %s' % (k, label, '; '.join(disagree[k])[:600]),
-                               'history': h})
+            unexplained.append(k)
         elif k in disagree:
             ctx.cover('disagreements_explained_by_a_property_failure')
+    # SEARCH: a state disagreement without a wrong result in the history itself -> look for a probe that shows it
+    searched = 0
+    for k in unexplained:
+        label, h = hs[k]
+        found = None
+        if searched < 4:
+            searched += 1
+            m = re.match(r'call (\d+)', disagree[k][0])
+            cands = hu.search_candidates(h, int(m.group(1)) if m else len(h['calls']))
+            for cand, r in zip(cands, pool.run(cands)):
+                fs = [f for f in hu.oracle(cand, r) if not f[0].startswith('harness:')]
+                if fs:
+                    found = (cand, fs[0])
+                    break
+        if found:
+            cand, (key, what, detail) = found
+            ctx.cover('disagreements_explained_by_search')
+            ctx.property_failure(key, what, {'key': key, 'history': cand, 'why': what,
+                                             'source': 'search after a state disagreement in a %s history: %s' % (label, disagree[k][0]),
+                                             'support_only': key in KEYS_SUPPORT})
+        else:
+            ctx.broken.append({'kind': 'model-correspondence', 'file': 'history %d (%s): %s' % (k, label, '; '.join(disagree[k])[:600]),
+                               'history': h})
     ctx.cov['correspondence'] = {'history-state-machine': corr}
     # the fork server's "fresh state" is re-checked against really fresh interpreters
     n_once = 24 if ctx.tier == 'quick' else 200
